@@ -307,7 +307,9 @@ def run(chk):
     # ---- id() of the XPath 1.0 core library against libxml2: a string with several IDs, a node-set of references
     lroot4 = LE.fromstring('<r xml:id="i1" ref="i2 i3"><x xml:id="i2">1</x><y><z xml:id="i3"/></y><w ref="i1"/></r>')
     for expr in ("id('i1')", "id('i2 i3')", "id('i3 i1')", "id('zz')", "id(//@ref)", "id(/r/w/@ref)", "id('i2')/text()", "count(id('i1 i2 i3'))", "id(12)", "id(true())", "id('')",
-                 "id('i1')/x", "id('i2')//text()", "(id('i1'))/y/z", "count(id('i1')/*)", "(//x)/text()", "(//x | //y)/..", "count((//x)//text())", "string(id('i1')/x)"):
+                 "id('i1')/x", "id('i2')//text()", "(id('i1'))/y/z", "count(id('i1')/*)", "(//x)/text()", "(//x | //y)/..", "count((//x)//text())", "string(id('i1')/x)",
+                 # only #x20 #x9 #xA #xD separate the IDs
+                 "count(id('i1\xa0i2'))", "count(id('i1\u3000i2'))", "count(id('i1\ti2'))", "count(id('i1\u2003i2 i3'))"):
         want = lroot4.xpath(expr)
         want = [getattr(x, 'tag', x) for x in want] if isinstance(want, list) else want
         chk.evaluations += 1
